@@ -15,6 +15,8 @@ fn main() {
     let p1 = pool(1);
     let p2 = pool(2);
     let p3 = pool(3);
+    // the empty declaration set: an interface without any command (no collision: it compiles)
+    sets.push((vec![], false, false));
     // single declarations
     for d in if thorough { &p3 } else { &p2 } {
         sets.push((vec![d.clone()], false, false));
@@ -75,6 +77,11 @@ fn main() {
             None => accept.push(json!({"decls": texts, "std": s, "err": e, "attr_path": path})),
             Some((_, q)) => reject.push(json!({"decls": texts, "std": s, "err": e, "attr_path": path, "error": if q { "QueryExists" } else { "CommandExists" }})),
         }
+    }
+    // one handler with two `cmd` keys in its attribute: the first declaration must not be dropped
+    // silently (any compile error will do; the macro has no way to register both)
+    for decls in [vec!["FIRSt", "SECond"], vec!["MEASure", "OTHer", "MEASure"], vec!["A:Bb?", "A:Bb?"]] {
+        reject.push(json!({"decls": decls, "std": false, "err": false, "attr_path": false, "dup_key": true, "error": ""}));
     }
     let j = json!({"tier": args.tier, "accept": accept, "reject": reject});
     match &args.out {
